@@ -5,6 +5,7 @@ INIT Init
 NEXT Next
 INVARIANT L1NoTrace
 INVARIANT L1Strict
+INVARIANT L1AllUntouched
 INVARIANT L1Success
 INVARIANT L1Crash
 INVARIANT L1IdxFail
